@@ -132,7 +132,7 @@ impl Engine for C09 {
 
 /// Values whose content files are directory neighbours: b0/b1 share the first digest byte
 /// (same `<aa>` directory, different `<bb>`), b0/b2 share the first two (same `<aa>/<bb>`).
-fn neighbours(algo: crate::blob::Algo) -> Vec<crate::blob::Blob> {
+pub fn neighbours(algo: crate::blob::Algo) -> Vec<crate::blob::Blob> {
     use crate::blob::{digest_raw, Blob};
     let base = Blob::new(6, 1);
     let d0 = digest_raw(algo, &base.bytes());
